@@ -291,6 +291,13 @@ theorem store_mutex_owner_is_in_section {c : TxProg.Cfg} (hr : ProgReachable c) 
   · exact Or.inl ((hst.conv u).1 h)
   · exact Or.inr ((hst.conv u).2 h)
 
+/-- hypotheses are satisfiable: thread 1 is inside `s.mu.Lock()` (pc a5, about to register its placeholder) while thread 2
+    asks for `s.mu.RLock()` (pc a1) and is kept out; thread 1 moves -/
+example : let c := (TxProg.run {} (moves 1 { call := .begin [("k", true, true)], fresh := 10 } 5 ++
+      moves 2 { call := .begin [("k", false, false)] } 3)).1
+    (c.loc 1).pc = .a5 ∧ smuAcquire (c.loc 2).pc = true ∧ TxProg.step c 2 {} = none ∧
+      (TxProg.step c 1 { fresh := 10 }).isSome = true := by decide
+
 theorem a_fresh_record_exists (c : TxProg.Cfg) : ∃ r, assoc c.sh.names r = none := exists_fresh c.sh.names
 
 /-- PROGRESS ON THE PROGRAM MODEL — no deadlock and no permanent stall over record mutexes and `store.mu` together:
